@@ -235,7 +235,12 @@ class BaseNodeVisitor(ast.NodeVisitor):
 
     @qcore.caching.cached_per_instance()
     def _lines(self) -> list[str]:
-        return [line + "\n" for line in self.contents.splitlines()]
+        # Physical lines as the tokenizer counts them: str.splitlines() would also break
+        # at form feeds, U+2028 and friends, which may occur inside a line.
+        lines = re.split(r"\r\n|\n|\r", self.contents)
+        if lines and not lines[-1]:
+            lines.pop()
+        return [line + "\n" for line in lines]
 
     @qcore.caching.cached_per_instance()
     def has_file_level_ignore(
